@@ -69,7 +69,7 @@ fn check_scaled(base_ratios: bool, base: &Flat, base_dhw: &Result<f32, String>, 
     }
 }
 
-fn check_area(base_ratios: bool, base: &Flat, comps: &cteepbd::Components, fs: &str, k: f32, lm: bool, mag: f64, c: f64, out: &mut Out) {
+fn check_area(base_ratios: bool, base: &Flat, base_dhw: &Result<f32, String>, comps: &cteepbd::Components, fs: &str, k: f32, lm: bool, mag: f64, c: f64, out: &mut Out) {
     let cfg = format!("factors={fs} k_exp={k} load_matching={lm} area_x={c}");
     out.evals += 1;
     let Ok(e2) = subj::eval(comps, subj::fset(fs), k, c as f32, lm) else {
@@ -78,6 +78,15 @@ fn check_area(base_ratios: bool, base: &Flat, comps: &cteepbd::Components, fs: &
     };
     let f2 = result_flat(&e2);
     out.compared += 1;
+    // "changes nothing else": the DHW renewable fraction too
+    let same_dhw = match (base_dhw, &dhw(&e2)) {
+        (Ok(a), Ok(b)) => (a - b).abs() <= 1e-4 || (a.is_nan() && b.is_nan()),
+        (Err(a), Err(b)) => a == b,
+        _ => false,
+    };
+    if !same_dhw {
+        out.viol("area_only_rescales_per_m2", &["dhw_fraction"], &cfg, format!("area x{c}: DHW renewable fraction {:?}", dhw(&e2)), format!("{base_dhw:?}"));
+    }
     let ratios = base_ratios && cmp::ratios_ok(&e2, mag);
     // the per-m2 figures carry the absolute rounding noise of the totals divided by the area: their absolute
     // tolerance is divided by the area factor too (two passes: everything but balance_m2, then balance_m2)
@@ -131,7 +140,7 @@ impl StateCheck for C11 {
                 check_scaled(base_ratios, &base, &base_dhw, text, *c, fs, k, lm, mag, out);
             }
             for c in [0.5, 4.0, 3.0, 0.125, 0.0078125, 1000.003] {
-                check_area(base_ratios, &base, &comps, fs, k, lm, mag, c, out);
+                check_area(base_ratios, &base, &base_dhw, &comps, fs, k, lm, mag, c, out);
             }
         }
         // bit-exact clause (power-of-two scaling under identical hash keys), small states only
@@ -180,6 +189,9 @@ fn dhw_letters() -> Vec<Letter> {
         Letter::one(d("ACS", &k(&[1, 3]))),
         Letter::one(u(Some(5), "ACS", "BIOMASA", &k(&[3, 1]))),
         Letter::one(u(Some(5), "ACS", "RED1", &k(&[1, 1]))),
+        // a DHW building: biomass boiler with declared output, solar thermal, and a small electric heater
+        // (a few kWh a year: far below any per-m2 resolution of a large building)
+        Letter::many(vec![d("ACS", &k(&[100, 100])), u(Some(6), "ACS", "BIOMASA", &k(&[100, 100])), o(6, "ACS", &k(&[60, 60])), u(Some(7), "ACS", "TERMOSOLAR", &k(&[30, 30])), u(Some(8), "ACS", "ELECTRICIDAD", &[150, 150])]),
     ]
 }
 
